@@ -184,13 +184,14 @@ class Executor:
 
     # ------------------------------------------------------------------
     def run(self):
-        saved_clock = tnum.myclock
+        saved_clock = getattr(tnum, "myclock", None)
         old_err = np.seterr(all="ignore")
         npseam = patched_np(self.rec, bool(self.sched.get("alloc")))
         guard = GlobalGuard.get()
         try:
             npseam.__enter__()
-            tnum.myclock = self.rec.clock
+            if saved_clock is not None:
+                tnum.myclock = self.rec.clock
             self.rec.clock_mode = self.sched["world"].get("clock", "normal") if self.with_faults else "normal"
             self.world = World(self.sched["world"], self.rec)
             self.model = Model(self.world)
@@ -214,7 +215,8 @@ class Executor:
             self.res.harness_error = "%s: %s\n%s" % (type(e).__name__, e, traceback.format_exc())
         finally:
             npseam.__exit__(None, None, None)
-            tnum.myclock = saved_clock
+            if saved_clock is not None:
+                tnum.myclock = saved_clock
             self.res.globals_changed = guard.check_restore()
             np.seterr(**old_err)
         self.res.events = self.rec.events
@@ -316,10 +318,16 @@ class Executor:
             return self.origin[(j, k)]
         r = self.res.records[j] if j < len(self.res.records) else None
         org = None
-        if r is not None and r.kind in ("solve", "restart") and r.outcome == "returned" and r.result \
-                and r.qn is not None:
+        if r is not None and r.kind in ("solve", "restart") and r.outcome == "returned" and r.result:
             dig, t, it, fin, data = r.result[k]
-            if dig == r.qn[0] and float(t).hex() == float(r.qn[1]).hex():
+            fulls = r.trace.full_steps()
+            if r.qn is not None:
+                end = (r.qn[0], r.qn[1])
+            elif fulls:
+                end = (fulls[-1].dig_out, fulls[-1].t_out)
+            else:
+                end = (r.f_before[0], r.f_before[1])
+            if dig == end[0] and float(t).hex() == float(end[1]).hex():
                 nside = len(r.trace.side_steps())
                 is_fallback = (len(r.result) == 1 and nside == 0 and r.nit >= 1)
                 m = self.match_of(r)
@@ -589,7 +597,8 @@ class Executor:
                 if "tottime" in stop:
                     stop["tottime"] = np.float64(stop["tottime"])
         # -- the call --------------------------------------------------------
-        self.rec.begin_op(i, solver, r.fault_specs, budget=op.get("budget"))
+        self.rec.begin_op(i, solver, r.fault_specs, budget=op.get("budget"),
+                          init_key=(digest_field(f), float(f.time).hex()))
         fn = solver.solve if r.kind == "solve" else solver.restart
         saved_stdout = sys.stdout
         try:
